@@ -920,6 +920,10 @@ def check_decode(cfg, path, pix):
             bad = np.argwhere(arr[:, :H, :W] != p3)[0].tolist()
             msgs.append(f"{name}: pixel {bad} decodes to {arr[tuple(bad)]!r}, input {p3[tuple(bad)]!r} "
                         f"({int((arr[:, :H, :W] != p3).sum())} of {p3.size} differ)")
+        elif cfg.get("nodata") is not None and not (isinstance(cfg["nodata"], float) and cfg["nodata"] != cfg["nodata"]):
+            padv = np.concatenate([arr[:, H:, :].ravel(), arr[:, :H, W:].ravel()])
+            if padv.size and not np.all(padv == np.asarray(cfg["nodata"]).astype(arr.dtype)):
+                msgs.append(f"{name}: padding holds {sorted(set(padv.tolist()))[:4]}, not this file's fill value {cfg['nodata']}")
     return msgs
 
 
@@ -1022,6 +1026,9 @@ def pair_configs(tier):
         dict(a=raw, b=dict(raw, salt=1), same_name=True, parts_base=True, min_write_sz=1024, scheduler="shuffle:3"),
         dict(a=raw, b=None, same_name=True, parts_base=True, min_write_sz=1024, scheduler="threads:4"),
         dict(a=raw, b=dict(raw, salt=5), parts_base=True, min_write_sz=1024, scheduler="shuffle:7"),
+        # the same dask array saved with two different nodata values (= padding fill) in one compute
+        dict(a=dict(base, nodata=1), b=None, b_nodata=2),
+        dict(a=dict(base, nodata=7, axis="SYX", S=2, dtype="uint8", H=33, W=40), b=None, b_nodata=200, scheduler="threads:3"),
     ]
     for i in range(4 if tier == "quick" else 60):
         a = dict(base, H=rng.choice([20, 50, 64]), W=rng.choice([33, 70]), dtype=rng.choice(["uint8", "int16", "float32"]),
